@@ -184,10 +184,9 @@ func c01CheckB(c *Case, r c01Run, fuzzing bool, cli bool, key string, budget int
 			if f == "" && flag == "-dbg-ast" && (dr.Exit == 0) != (lib.Class != "syntax") {
 				f = fmt.Sprintf("exit status %d although the run of the same text ends as %s", dr.Exit, lib.Class)
 			}
-			if f == "" && flag == "-dbg-lex" && dr.Exit != 0 && lib.Class != "syntax" {
-				// (a text that parses also lexes)
-				f = fmt.Sprintf("exit status %d although the run of the same text ends as %s", dr.Exit, lib.Class)
-			}
+			// (-dbg-lex lists tokens without the parser: after a '}' it cannot know whether a '/' divides an object literal or
+			// starts a regex in the next rule, so for arbitrary texts only "status 0 or 1, no crash" is demanded of it; the
+			// unambiguous listings are checked in c01DbgLex)
 			if f != "" {
 				c.Violation(fmt.Sprintf("%s (binary, %s): %s | stderr: %s | program: %s | selectors: %q", key, flag, f, clip(string(dr.Stderr), 200), clip(r.prog, 200), r.sels), nil,
 					map[string]any{"program": r.prog, "selectors": r.sels, "flag": flag, "stderr": string(dr.Stderr), "exit": dr.Exit})
